@@ -1,4 +1,4 @@
-SPECIFICATION Spec
+SPECIFICATION GenSpec
 CONSTANTS
   P = 7
   MaxN = 3
